@@ -53,6 +53,12 @@ func genC21(t *rapid.T) SelCase {
 		case 2:
 			sn.Spec.Labels = map[string]string{"disk": "ssd"}
 		}
+		if vt.Chance(t, "flagLabel", 30) { // a label that is a bare flag: present with an empty value
+			if sn.Spec.Labels == nil {
+				sn.Spec.Labels = map[string]string{}
+			}
+			sn.Spec.Labels["gpu"] = ""
+		}
 		c.Nodes = append(c.Nodes, sn)
 	}
 	f := world.DeploySpec{App: "a", Entry: "web", Strategy: "DUMMY", Count: 1}
@@ -79,6 +85,11 @@ func genC21(t *rapid.T) SelCase {
 			f.NLabels = map[string]string{"disk": "ssd"}
 		case 2:
 			f.NLabels = map[string]string{"zone": "y", "disk": "ssd"}
+		case 3:
+			f.NLabels = map[string]string{"gpu": ""}
+			if vt.Chance(t, "flagAndZone", 40) {
+				f.NLabels["zone"] = "x"
+			}
 		}
 	}
 	c.Filter = f
@@ -116,7 +127,7 @@ func (c SelCase) expectedSelection() (set []string, ok bool) {
 		}
 		match := true
 		for k, v := range f.NLabels {
-			if n.Spec.Labels[k] != v {
+			if have, carries := n.Spec.Labels[k]; !carries || have != v { // "carry the requested labels": present, with that value
 				match = false
 			}
 		}
